@@ -123,7 +123,7 @@ Proof.
   unfold wf_tnames. generalize (tnames_list n). induction l as [|x r IH]; cbn [forallb map filter]; intro H; [reflexivity|].
   apply andb_true_iff in H. destruct H as [Hx Hr]. split_wf Hx.
   repeat match goal with X : negb _ = true |- _ => apply negb_true_iff in X end.
-  unfold nmv at 1. unfold is_sort_word at 1. unfold pystr_eq.
+  unfold nmv at 1. unfold is_sort_word at 1.
   repeat match goal with X : String.eqb _ _ = false |- _ => rewrite X end. cbn [orb negb]. rewrite (IH Hr). reflexivity.
 Qed.
 
